@@ -215,7 +215,8 @@ def check(run):
             continue
         codes, bit = a0.args[0].id, a1.id
         for s2 in st.body:
-            if isinstance(s2, ast.Assign) and isinstance(s2.targets[0], ast.Subscript) and norm(s2.targets[0].value) == codes and isinstance(s2.value, ast.Constant):
+            if isinstance(s2, ast.Assign) and isinstance(s2.targets[0], ast.Subscript) and norm(s2.targets[0].value) == codes and isinstance(s2.value, ast.Constant) \
+                    and s2.lineno < pcall.lineno:
                 run.check(s2.value.value == 3 and norm(s2.targets[0].slice).replace(' ', '') == 'self.qubits[-%s]' % i, 'R12.zobs', b, s2,
                           'post-selection observable must be Z (code 3) on the ii-th qubit from the end')
             if isinstance(s2, ast.Assign) and norm(s2.targets[0]) == bit:
@@ -245,6 +246,9 @@ def check(run):
         run.check(ok, 'R11.impossible', b, pcall, 'an impossible post-selection (probability 0) must raise')
         run.check(norm(st.iter).replace(' ', '').startswith('range(1,len('), 'R10.order', b, st.iter, 'post-selection runs over the qubits in reverse (ii = 1..len)')
     run.check(n_loops == 2, 'R11.impossible', b, 'two record sources', 'both the supplied record and the stored result are post-selected')
+    # the observable buffer is rebuilt for every post-selected qubit
+    from ..rules import rowclass
+    rowclass.check_buffer_resets(run, b)
     # ---- postselect
     ps = repo.func(K.PY_S, 'StabilizerState.postselect')
     raises = [st for st, ctx in walk(ps.node) if isinstance(st, ast.Raise) and any('self.r' in norm(t) for t, _ in ctx.conds)]
@@ -305,6 +309,7 @@ def check(run):
     resolve.check_cone(run, repo, entries, 'trajectory')
     run.floor('R5', 4)
     run.floor('R12.zobs', 5)
+    run.floor('R9.reset', 2)
     run.floor('R11.take', 5)
     run.floor('R11.record', 8)
     run.floor('R13.slice', 5)
